@@ -85,7 +85,28 @@ func TestC02Rapid(t *testing.T) {
 				c.Class("genesis-round-trip-inside-history")
 			}
 			pre := w.balances()
+			// one step in six runs with a token hook on the bank transfer that submits the claim being
+			// executed once more from inside the transfer (as a sub-message of the receiving side would)
+			nested, nestedErr := false, error(nil)
+			if rapid.IntRange(0, 5).Draw(rt, "reenter") == 0 {
+				env := w.e
+				env.Send.Fn = func(ctx sdk.Context, from, to sdk.AccAddress, amt sdk.Coins) {
+					cur, ok := env.Send.Current.(*ophosttypes.MsgFinalizeTokenWithdrawal)
+					if !ok || nested || !from.Equals(escrowAddr(cur.BridgeId)) {
+						return
+					}
+					nested = true
+					nestedErr = env.Nested(ctx, cloneMsg(cur))
+				}
+			}
 			st := w.step(rt)
+			w.e.Send.Fn = nil
+			if nested {
+				c.Class("claim-resubmitted-while-its-transfer-executes")
+				if nestedErr == nil {
+					rt.Fatalf("C02 violated at step %d: the claim was submitted again while its own transfer was executing and the second submission was paid too\nhistory:\n%s", i, w.history())
+				}
+			}
 			if st.Kind == "delete" && st.Res.OK() {
 				deletions++
 			}
